@@ -155,9 +155,21 @@ func runCell(p *plan, x *Exec, cs cellSpec, only string) *wkpool.CaseResult {
 		for _, cluster := range []bool{false, true} {
 			fmt.Fprintf(os.Stderr, "c13: %s cluster=%v window=%s writer=%s reader=%s\n", ep.Name, cluster, w.Name, wd.Zone, readerZone)
 			x.begin(cell)
-			resp := ep.Run(x, cluster, w)
-			stmts := x.taken()
-			o := judge(cell, ep, cluster, resp, stmts, func(w2 Win) []StmtRec { x.begin(cell); ep.Run(x, cluster, w2); return x.taken() })
+			var obs []*Obs
+			var stmts []StmtRec
+			if ep.RunParts != nil {
+				for _, pt := range ep.RunParts(x, cluster, w) {
+					pc := *cell
+					pc.Win = pt.Win
+					obs = append(obs, judge(&pc, ep, cluster, pt.Resp, pt.Stmts, nil))
+					stmts = append(stmts, pt.Stmts...)
+				}
+			} else {
+				resp := ep.Run(x, cluster, w)
+				stmts = x.taken()
+				obs = append(obs, judge(cell, ep, cluster, resp, stmts, func(w2 Win) []StmtRec { x.begin(cell); ep.Run(x, cluster, w2); return x.taken() }))
+			}
+			o := mergeObs(obs)
 			res.RealTraces++
 			res.Counters["requests"]++
 			res.Counters["statements"] += int64(len(stmts))
@@ -206,6 +218,18 @@ func runCell(p *plan, x *Exec, cs cellSpec, only string) *wkpool.CaseResult {
 	}
 	res.Key = fmt.Sprintf("%s/%s/%s", readerZone, wd.Zone, w.Name)
 	return res
+}
+
+// mergeObs folds the observations of the parts of one request into one.
+func mergeObs(obs []*Obs) *Obs {
+	o := obs[0]
+	for _, p := range obs[1:] {
+		o.Returned = append(o.Returned, p.Returned...)
+		o.Findings = append(o.Findings, p.Findings...)
+		o.MustN += p.MustN
+		o.Unsupp = append(o.Unsupp, p.Unsupp...)
+	}
+	return o
 }
 
 type replayCase struct {
